@@ -362,7 +362,7 @@ theorem translator_facts :
     document state only through these: the settings and the CLI client (configuration,
     C19), the loader cache and limits (only consulted by loads), the workspace's
     declared-account / commodity caches (recomputed from the workspace state under its lock),
-    and `Server.resolved` — the subject of `response_is_function_of_state_partial` below. -/
+    and `Server.resolved` — the subject of `response_is_function_of_state` below. -/
 def backgroundWrites : List Loc :=
   ((accessTable.filter fun r => (r.role == .publish || r.role == .refresh) && r.kind == .write && !r.fresh).map
     (·.loc)).eraseDups
@@ -372,12 +372,25 @@ theorem background_writes_exactly :
       .Server_settings, .Workspace_cachedAccounts, .Workspace_cachedCommodities] := by
   decide +kernel
 
-/-- The handlers that read `Server.resolved` are the ones the `stale-resolved` guard names
-    (harness kinds completion / hover / definition / references; Rename, InlineCompletion and
-    the accessor GetResolved are not exercised by the harness). -/
+/-- The handlers that read `Server.resolved` (harness kinds completion / hover / definition /
+    references; Rename, InlineCompletion and the accessor GetResolved are not exercised by the
+    harness). -/
 theorem resolved_readers :
     resolvedReaders = ["Completion", "Definition", "GetResolved", "Hover", "InlineCompletion",
       "References", "Rename"] := by decide
+
+/-- What the transition system `HL.Bg` assumes about writers of `Server.resolved`, as a fact
+    regenerated from the source: every call that can change the map (Store, Delete, ...; in the
+    current source `dropDocCaches` — the delete at a version bump / close, events `change`,
+    `close` — and `storeResolvedIfCurrent` — the version-checked store, event `finish` of a
+    background task and the `store` access of a request) is made inside docVerMu, the lock
+    under which the document's number is read and written.  A store outside it — the
+    unconditional store of the pinned code, or a handler storing what it loaded without asking
+    whether the document is still at that version — breaks this proof.  (Function names are
+    not pinned: a rename does not.) -/
+theorem resolved_mutators_versioned :
+    resolvedMutators ≠ [] ∧ resolvedMutators.all (·.2) = true := by
+  decide
 
 /-- **C14, race part.**  Every pool of threads that is an instance of the extracted table —
     any number of publish and refresh goroutines, any interleaving with the serial handler
@@ -447,245 +460,421 @@ section bg
 open HL.Bg
 variable {Text Res Resp : Type}
 
-theorem mem_eraseIdx_or {α : Type} (l : List α) (i : Nat) (x : α) (h : x ∈ l) :
-    x ∈ l.eraseIdx i ∨ l[i]? = some x := by
-  induction l generalizing i with
-  | nil => cases h
-  | cons y r ih =>
-    cases i with
-    | zero =>
-      rcases List.mem_cons.mp h with rfl | h
-      · exact Or.inr rfl
-      · exact Or.inl h
-    | succ n =>
-      rcases List.mem_cons.mp h with rfl | h
-      · exact Or.inl List.mem_cons_self
-      · rcases ih n h with h1 | h1
-        · exact Or.inl (List.mem_cons_of_mem _ h1)
-        · exact Or.inr h1
+/-- What the locals of a request in progress hold: the text passed to the loader is the
+    handler's `doc`, the tree about to be stored is the tree of `doc`. -/
+def ReqOK (load : Text → Res) (r : Req Text Res) : Prop :=
+  match r.pc with
+  | .lookup | .version | .content _ => True
+  | .load _ t => t = r.doc
+  | .store _ res => res = load r.doc
 
-/-- Invariant of the background-task model, per document. -/
-structure BgInv (load : Text → Res) (σ : St Text Res) (u : Nat) : Prop where
-  /-- numbers of tasks in flight were drawn from the counter; the task that carries the
+/-- Invariant of the model (code with repo_patches/fix-resolved-pending.diff). -/
+structure BgInv (load : Text → Res) (σ : St Text Res) : Prop where
+  /-- numbers of tasks in flight were drawn from the counter; the task that carries a
       document's current number carries its current text -/
-  tasks : ∀ p ∈ σ.pending u, 1 ≤ p.2 ∧ p.2 ≤ σ.seq ∧ (p.2 = σ.ver u → σ.docs u = some p.1)
-  verLe : σ.ver u ≤ σ.seq
+  tasks : ∀ u, ∀ k ∈ σ.pending u, 1 ≤ k.num ∧ k.num ≤ σ.seq ∧ (k.num = σ.ver u → σ.docs u = some k.text)
+  verLe : ∀ u, σ.ver u ≤ σ.seq
   /-- the stored tree is never the tree of another text -/
-  fresh : σ.resolved u = none ∨ ∃ t, σ.docs u = some t ∧ σ.resolved u = some (load t)
-  /-- once the current task has stored, the tree is there -/
-  stored : ∀ t, σ.docs u = some t → settled σ u = true → σ.resolved u = some (load t)
+  fresh : ∀ u, σ.resolved u = none ∨ ∃ t, σ.docs u = some t ∧ σ.resolved u = some (load t)
+  /-- an open document has a number -/
+  opened : ∀ u t, σ.docs u = some t → σ.ver u ≠ 0
+  /-- the handler's local `doc` is the document's text for as long as the request lasts -/
+  req : ∀ r, σ.req = some r → σ.docs r.uri = some r.doc ∧ ReqOK load r
+  /-- every answer was computed with the tree of the text it was computed from -/
+  answers : ∀ a ∈ σ.answers, a.tree = some (load a.doc)
 
-theorem bgInv_init (load : Text → Res) (u : Nat) : BgInv load (St.init : St Text Res) u where
-  tasks := by intro p hp; simp [St.init] at hp
-  verLe := by simp [St.init]
-  fresh := Or.inl rfl
-  stored := by intro t h; simp [St.init] at h
+theorem bgInv_answer {load : Text → Res} {σ : St Text Res} (h : BgInv load σ) (r : Req Text Res)
+    (tree : Option Res) (ht : tree = some (load r.doc)) : BgInv load (answer σ r tree) := by
+  obtain ⟨h1, h2, h3, h4, h5, h6⟩ := h
+  refine ⟨h1, h2, h3, h4, ?_, ?_⟩
+  · intro r' hr'; simp [answer] at hr'
+  · intro a ha
+    simp only [answer, List.mem_append, List.mem_singleton] at ha
+    rcases ha with ha | rfl
+    · exact h6 a ha
+    · exact ht
 
-theorem settled_of_erase {σ : St Text Res} {u i : Nat} {t : Text} {v : Nat}
-    (hg : (σ.pending u)[i]? = some (t, v)) (hv : v ≠ σ.ver u)
-    (h : ((σ.pending u).eraseIdx i).all (fun p => p.2 != σ.ver u) = true) :
-    (σ.pending u).all (fun p => p.2 != σ.ver u) = true := by
-  apply List.all_eq_true.mpr
-  intro p hp
-  rcases mem_eraseIdx_or _ i p hp with h1 | h1
-  · exact List.all_eq_true.mp h p h1
-  · rw [hg] at h1
-    injection h1 with h1
-    subst h1
-    simpa using hv
+theorem bgInv_setPc {load : Text → Res} {σ : St Text Res} (h : BgInv load σ) (r : Req Text Res)
+    (pc : RPc Text Res) (hd : σ.docs r.uri = some r.doc) (hok : ReqOK load { r with pc := pc }) :
+    BgInv load (setPc σ r pc) := by
+  obtain ⟨h1, h2, h3, h4, h5, h6⟩ := h
+  refine ⟨h1, h2, h3, h4, ?_, h6⟩
+  intro r' hr'
+  simp only [setPc, Option.some.injEq] at hr'
+  subst hr'
+  exact ⟨hd, hok⟩
 
-theorem bgInv_step (load : Text → Res) (σ : St Text Res) (e : Ev Text) (u : Nat)
-    (h : BgInv load σ u) : BgInv load (step load σ e) u := by
+theorem bgInv_step (load : Text → Res) (σ : St Text Res) (e : Ev Text)
+    (h : BgInv load σ) : BgInv load (step load true σ e) := by
+  obtain ⟨h1, h2, h3, h4, h5, h6⟩ := h
   cases e with
-  | change u' t =>
-    by_cases hu : u = u'
-    · subst hu
-      refine ⟨?_, ?_, ?_, ?_⟩
-      · intro p hp
-        simp only [step, Bg.upd, if_true, List.mem_append, List.mem_singleton] at hp ⊢
-        rcases hp with hp | rfl
-        · obtain ⟨h1, h2, _⟩ := h.tasks p hp
-          exact ⟨h1, by omega, fun he => by omega⟩
-        · exact ⟨by simp, by simp, fun _ => rfl⟩
-      · simp [step, Bg.upd]
-      · exact Or.inl (by simp [step, Bg.upd])
-      · intro t' _ hs
-        simp [step, Bg.upd, settled] at hs
-    · refine ⟨?_, ?_, ?_, ?_⟩
-      · intro p hp
-        simp only [step, Bg.upd, hu, if_false] at hp ⊢
-        obtain ⟨h1, h2, h3⟩ := h.tasks p hp
-        exact ⟨h1, by omega, h3⟩
-      · have := h.verLe
-        simp only [step, Bg.upd, hu, if_false]; omega
-      · simpa [step, Bg.upd, hu] using h.fresh
-      · intro t' hd hs
-        simp only [step, Bg.upd, hu, if_false, settled] at hd hs ⊢
-        exact h.stored t' hd hs
-  | close u' =>
-    by_cases hu : u = u'
-    · subst hu
-      refine ⟨?_, ?_, ?_, ?_⟩
-      · intro p hp
-        simp only [step, Bg.upd, if_true] at hp ⊢
-        obtain ⟨h1, h2, _⟩ := h.tasks p hp
-        exact ⟨h1, h2, fun he => by omega⟩
-      · simp [step, Bg.upd]
-      · exact Or.inl (by simp [step, Bg.upd])
-      · intro t' hd
-        simp [step, Bg.upd] at hd
-    · refine ⟨?_, ?_, ?_, ?_⟩
-      · intro p hp
-        simp only [step, Bg.upd, hu, if_false] at hp ⊢
-        exact h.tasks p hp
-      · simpa [step, Bg.upd, hu] using h.verLe
-      · simpa [step, Bg.upd, hu] using h.fresh
-      · intro t' hd hs
-        simp only [step, Bg.upd, hu, if_false, settled] at hd hs ⊢
-        exact h.stored t' hd hs
-  | finish u' i =>
+  | change u t =>
     simp only [step]
     split
-    · exact h
-    · rename_i t v hg
-      by_cases hu : u = u'
-      · subst hu
-        have hmem : (t, v) ∈ σ.pending u := List.mem_of_getElem? hg
-        obtain ⟨_, _, hcur⟩ := h.tasks (t, v) hmem
-        refine ⟨?_, ?_, ?_, ?_⟩
-        · intro p hp
-          simp only [Bg.upd, if_true] at hp ⊢
-          exact h.tasks p (List.mem_of_mem_eraseIdx hp)
-        · exact h.verLe
-        · by_cases hv : v = σ.ver u
-          · simp only [hv, if_true, Bg.upd]
-            exact Or.inr ⟨t, hcur hv, rfl⟩
-          · simp only [hv, if_false]
-            exact h.fresh
-        · intro t' hd hs
-          by_cases hv : v = σ.ver u
-          · simp only [hv, if_true, Bg.upd]
-            have := hcur hv
-            simp only at hd
-            rw [this] at hd
-            injection hd with hd
-            simp only at hd
-            rw [hd]
-          · simp only [hv, if_false]
-            simp only [settled, Bg.upd, if_true, Bool.and_eq_true] at hs
-            apply h.stored t' hd
-            simp only [settled, Bool.and_eq_true]
-            exact ⟨settled_of_erase hg hv hs.1, hs.2⟩
-      · refine ⟨?_, h.verLe, ?_, ?_⟩
-        · intro p hp
-          simp only [Bg.upd, hu, if_false] at hp ⊢
-          exact h.tasks p hp
-        · by_cases hv : v = σ.ver u'
-          · simp only [hv, if_true, Bg.upd, hu, if_false]; exact h.fresh
-          · simp only [hv, if_false]; exact h.fresh
-        · intro t' hd hs
-          simp only [settled, Bg.upd, hu, if_false] at hs
-          have := h.stored t' hd hs
-          by_cases hv : v = σ.ver u'
-          · simp only [hv, if_true, Bg.upd, hu, if_false]; exact this
-          · simp only [hv, if_false]; exact this
-  | skip u' i =>
+    · exact ⟨h1, h2, h3, h4, h5, h6⟩
+    · rename_i hr
+      refine ⟨?_, ?_, ?_, ?_, ?_, h6⟩
+      · intro u' k hk
+        simp only [Bg.upd] at hk ⊢
+        by_cases hu : u' = u
+        · subst hu
+          simp only [if_true, List.mem_append, List.mem_singleton] at hk ⊢
+          rcases hk with hk | rfl
+          · obtain ⟨a, b, _⟩ := h1 _ k hk
+            exact ⟨a, by omega, fun he => by omega⟩
+          · exact ⟨by simp, by simp, fun _ => rfl⟩
+        · simp only [hu, if_false] at hk ⊢
+          obtain ⟨a, b, c⟩ := h1 _ k hk
+          exact ⟨a, by omega, c⟩
+      · intro u'; have := h2 u'; simp only [Bg.upd]; split <;> omega
+      · intro u'; simp only [Bg.upd]; split
+        · exact Or.inl rfl
+        · exact h3 u'
+      · intro u' t'; simp only [Bg.upd]; split
+        · intro _; omega
+        · exact h4 u' t'
+      · intro r hr'; simp [hr] at hr'
+  | close u =>
     simp only [step]
     split
-    · exact h
-    · rename_i t v hg
-      by_cases hu : u = u'
-      · subst hu
-        refine ⟨?_, h.verLe, h.fresh, ?_⟩
-        · intro p hp
-          simp only [Bg.upd, if_true] at hp ⊢
-          exact h.tasks p (List.mem_of_mem_eraseIdx hp)
-        · intro t' hd hs
-          by_cases hv : v = σ.ver u
-          · simp [settled, hv, Bg.upd] at hs
-          · simp only [settled, hv, if_false, Bg.upd, if_true, Bool.and_eq_true] at hs
-            apply h.stored t' hd
-            simp only [settled, Bool.and_eq_true]
-            exact ⟨settled_of_erase hg hv hs.1, hs.2⟩
-      · refine ⟨?_, h.verLe, h.fresh, ?_⟩
-        · intro p hp
-          simp only [Bg.upd, hu, if_false] at hp ⊢
-          exact h.tasks p hp
-        · intro t' hd hs
-          apply h.stored t' hd
-          by_cases hv : v = σ.ver u'
-          · simpa [settled, hv, Bg.upd, hu] using hs
-          · simpa [settled, hv, Bg.upd, hu] using hs
+    · exact ⟨h1, h2, h3, h4, h5, h6⟩
+    · rename_i hr
+      refine ⟨?_, ?_, ?_, ?_, ?_, h6⟩
+      · intro u' k hk
+        obtain ⟨a, b, c⟩ := h1 _ k hk
+        refine ⟨a, b, ?_⟩
+        simp only [Bg.upd]
+        split
+        · intro he; omega
+        · exact c
+      · intro u'; have := h2 u'; simp only [Bg.upd]; split <;> omega
+      · intro u'; simp only [Bg.upd]; split
+        · exact Or.inl rfl
+        · exact h3 u'
+      · intro u' t'; simp only [Bg.upd]; split
+        · intro hc; cases hc
+        · exact h4 u' t'
+      · intro r hr'; simp [hr] at hr'
+  | config b => exact ⟨h1, h2, h3, h4, h5, h6⟩
+  | start u i =>
+    simp only [step]
+    split
+    · exact ⟨h1, h2, h3, h4, h5, h6⟩
+    · rename_i k hg
+      have hmem : k ∈ σ.pending u := List.mem_of_getElem? hg
+      split
+      · exact ⟨h1, h2, h3, h4, h5, h6⟩
+      · split
+        · refine ⟨?_, h2, h3, h4, h5, h6⟩
+          intro u' k' hk'
+          simp only [Bg.upd] at hk'
+          split at hk'
+          · rename_i hu; subst hu
+            rcases List.mem_or_eq_of_mem_set hk' with hk' | rfl
+            · exact h1 _ k' hk'
+            · exact h1 _ k hmem
+          · exact h1 _ k' hk'
+        · refine ⟨?_, h2, h3, h4, h5, h6⟩
+          intro u' k' hk'
+          simp only [Bg.upd] at hk'
+          split at hk'
+          · rename_i hu; subst hu
+            exact h1 _ k' (List.mem_of_mem_eraseIdx hk')
+          · exact h1 _ k' hk'
+  | finish u i =>
+    simp only [step]
+    split
+    · exact ⟨h1, h2, h3, h4, h5, h6⟩
+    · rename_i k hg
+      have hmem : k ∈ σ.pending u := List.mem_of_getElem? hg
+      obtain ⟨_, _, hcur⟩ := h1 _ k hmem
+      split
+      · refine ⟨?_, h2, ?_, h4, h5, h6⟩
+        · intro u' k' hk'
+          simp only [Bg.upd] at hk'
+          split at hk'
+          · rename_i hu; subst hu
+            exact h1 _ k' (List.mem_of_mem_eraseIdx hk')
+          · exact h1 _ k' hk'
+        · intro u'
+          simp only
+          split
+          · rename_i hv
+            simp only [Bg.upd]
+            split
+            · rename_i hu; subst hu
+              exact Or.inr ⟨k.text, hcur hv, rfl⟩
+            · exact h3 u'
+          · exact h3 u'
+      · exact ⟨h1, h2, h3, h4, h5, h6⟩
+  | req u =>
+    simp only [step]
+    split
+    · rename_i t hr hd
+      refine ⟨h1, h2, h3, h4, ?_, h6⟩
+      intro r hr'
+      simp only [Option.some.injEq] at hr'
+      subst hr'
+      exact ⟨hd, trivial⟩
+    · exact ⟨h1, h2, h3, h4, h5, h6⟩
+  | adv =>
+    simp only [step]
+    split
+    · exact ⟨h1, h2, h3, h4, h5, h6⟩
+    · rename_i r hr
+      obtain ⟨hd, hok⟩ := h5 r hr
+      have hI : BgInv load σ := ⟨h1, h2, h3, h4, h5, h6⟩
+      unfold advance
+      split
+      · -- lookup
+        split
+        · rename_i tree hres
+          apply bgInv_answer hI
+          rcases h3 r.uri with hn | ⟨t, ht, hr3⟩
+          · rw [hn] at hres; cases hres
+          · rw [hd] at ht; cases ht
+            rw [hres] at hr3; exact hr3
+        · simp only [if_true]
+          exact bgInv_setPc hI r _ hd trivial
+      · -- version
+        split
+        · rename_i hv
+          exact absurd hv (h4 _ _ hd)
+        · exact bgInv_setPc hI r _ hd trivial
+      · -- content
+        split
+        · rename_i hn; rw [hd] at hn; cases hn
+        · rename_i t ht
+          rw [hd] at ht; cases ht
+          exact bgInv_setPc hI r _ hd rfl
+      · -- load
+        rename_i v t hpc
+        have : t = r.doc := by simpa [ReqOK, hpc] using hok
+        subst this
+        exact bgInv_setPc hI r _ hd rfl
+      · -- store
+        rename_i v res hpc
+        have hres : res = load r.doc := by simpa [ReqOK, hpc] using hok
+        apply bgInv_answer _ r _ (by rw [hres])
+        refine ⟨h1, h2, ?_, h4, h5, h6⟩
+        intro u'
+        simp only
+        split
+        · simp only [Bg.upd]
+          split
+          · rename_i hu; subst hu
+            exact Or.inr ⟨r.doc, hd, by rw [hres]⟩
+          · exact h3 u'
+        · exact h3 u'
 
-theorem bgInv_run (load : Text → Res) (es : List (Ev Text)) (u : Nat) :
-    BgInv load (run load es) u := by
+theorem bgInv_init (load : Text → Res) : BgInv load (St.init : St Text Res) where
+  tasks := by intro u k hk; simp [St.init] at hk
+  verLe := by simp [St.init]
+  fresh := fun _ => Or.inl rfl
+  opened := by intro u t h; simp [St.init] at h
+  req := by intro r h; simp [St.init] at h
+  answers := by intro a h; simp [St.init] at h
+
+theorem bgInv_run (load : Text → Res) (es : List (Ev Text)) : BgInv load (run load true es) := by
   unfold run
-  suffices ∀ σ : St Text Res, BgInv load σ u → BgInv load (es.foldl (step load) σ) u from
-    this _ (bgInv_init load u)
+  suffices ∀ σ : St Text Res, BgInv load σ → BgInv load (es.foldl (step load true) σ) from
+    this _ (bgInv_init load)
   induction es with
   | nil => intro σ h; exact h
-  | cons e r ih => intro σ h; exact ih _ (bgInv_step load σ e u h)
+  | cons e r ih => intro σ h; exact ih _ (bgInv_step load σ e h)
 
-/-- **The stored include tree is never the tree of another text.**  For every history of
-    opens / changes / closes and every scheduling of the background tasks (any order of
-    completion, any of them skipped): `Server.resolved[u]` is absent or is the tree loaded
-    from the CURRENT text of `u`. -/
+/-- what one access of the handler thread does to the request and the list of answers -/
+theorem advance_shape (load : Text → Res) (fixed : Bool) (σ : St Text Res) (r : Req Text Res) :
+    (∃ pc, (advance load fixed σ r).req = some { r with pc := pc } ∧ (advance load fixed σ r).answers = σ.answers) ∨
+    (∃ tree, (advance load fixed σ r).req = none ∧ (advance load fixed σ r).answers = σ.answers ++ [⟨r.uri, r.doc, tree⟩]) := by
+  unfold advance
+  split
+  · split
+    · exact Or.inr ⟨_, rfl, rfl⟩
+    · split
+      · exact Or.inl ⟨_, rfl, rfl⟩
+      · exact Or.inr ⟨_, rfl, rfl⟩
+  · split
+    · exact Or.inr ⟨_, rfl, rfl⟩
+    · exact Or.inl ⟨_, rfl, rfl⟩
+  · split
+    · exact Or.inr ⟨_, rfl, rfl⟩
+    · exact Or.inl ⟨_, rfl, rfl⟩
+  · exact Or.inl ⟨_, rfl, rfl⟩
+  · exact Or.inr ⟨_, rfl, rfl⟩
+
+/-- The request taken on `u` with text `t` when `n` answers had been given is still being
+    answered, or the `n`-th answer is its answer. -/
+def Tracks (σ : St Text Res) (u : Nat) (t : Text) (n : Nat) : Prop :=
+  (∃ r, σ.req = some r ∧ r.uri = u ∧ r.doc = t ∧ σ.answers.length = n) ∨
+  (∃ a, σ.answers[n]? = some a ∧ a.uri = u ∧ a.doc = t)
+
+theorem tracks_step (load : Text → Res) (fixed : Bool) (σ : St Text Res) (e : Ev Text) (u : Nat) (t : Text)
+    (n : Nat) (h : Tracks σ u t n) : Tracks (step load fixed σ e) u t n := by
+  rcases h with ⟨r, hr, hu, hd, hn⟩ | ⟨a, ha, hu, hd⟩
+  · cases e with
+    | change u' t' => simp only [step, hr]; exact Or.inl ⟨r, hr, hu, hd, hn⟩
+    | close u' => simp only [step, hr]; exact Or.inl ⟨r, hr, hu, hd, hn⟩
+    | config b => exact Or.inl ⟨r, hr, hu, hd, hn⟩
+    | start u' i =>
+      simp only [step]
+      split
+      · exact Or.inl ⟨r, hr, hu, hd, hn⟩
+      · split
+        · exact Or.inl ⟨r, hr, hu, hd, hn⟩
+        · split <;> exact Or.inl ⟨r, hr, hu, hd, hn⟩
+    | finish u' i =>
+      simp only [step]
+      split
+      · exact Or.inl ⟨r, hr, hu, hd, hn⟩
+      · split <;> exact Or.inl ⟨r, hr, hu, hd, hn⟩
+    | req u' => simp only [step, hr]; exact Or.inl ⟨r, hr, hu, hd, hn⟩
+    | adv =>
+      simp only [step, hr]
+      rcases advance_shape load fixed σ r with ⟨pc, h1, h2⟩ | ⟨tree, h1, h2⟩
+      · exact Or.inl ⟨_, h1, hu, hd, by rw [h2]; exact hn⟩
+      · refine Or.inr ⟨⟨r.uri, r.doc, tree⟩, ?_, hu, hd⟩
+        rw [h2, ← hn]; simp
+  · right
+    refine ⟨a, ?_, hu, hd⟩
+    have hlt : n < σ.answers.length := by
+      rcases Nat.lt_or_ge n σ.answers.length with h | h
+      · exact h
+      · rw [List.getElem?_eq_none h] at ha; cases ha
+    have grow : ∀ x, (σ.answers ++ [x])[n]? = some a := by
+      intro x; rw [List.getElem?_append_left hlt]; exact ha
+    cases e with
+    | change u' t' => simp only [step]; split <;> exact ha
+    | close u' => simp only [step]; split <;> exact ha
+    | config b => exact ha
+    | start u' i =>
+      simp only [step]
+      split
+      · exact ha
+      · split
+        · exact ha
+        · split <;> exact ha
+    | finish u' i =>
+      simp only [step]
+      split
+      · exact ha
+      · split <;> exact ha
+    | req u' => simp only [step]; split <;> exact ha
+    | adv =>
+      simp only [step]
+      split
+      · exact ha
+      · rename_i r hr
+        rcases advance_shape load fixed σ r with ⟨pc, h1, h2⟩ | ⟨tree, h1, h2⟩
+        · rw [h2]; exact ha
+        · rw [h2]; exact grow _
+
+theorem tracks_foldl (load : Text → Res) (fixed : Bool) (es : List (Ev Text)) (σ : St Text Res) (u : Nat)
+    (t : Text) (n : Nat) (h : Tracks σ u t n) : Tracks (es.foldl (step load fixed) σ) u t n := by
+  induction es generalizing σ with
+  | nil => exact h
+  | cons e r ih => exact ih _ (tracks_step load fixed σ e u t n h)
+
+theorem run_append (load : Text → Res) (fixed : Bool) (es es' : List (Ev Text)) :
+    run load fixed (es ++ es') = es'.foldl (step load fixed) (run load fixed es) := by
+  simp [run, List.foldl_append]
+
+/-- **The stored include tree is never the tree of another text** (the protection of fix
+    5fbc2c6, kept).  For every history of opens / changes / closes / requests / configuration
+    changes and every scheduling of the background tasks: `Server.resolved[u]` is absent or is
+    the tree loaded from the CURRENT text of `u`. -/
 theorem resolved_never_stale (load : Text → Res) (es : List (Ev Text)) (u : Nat) :
-    (run load es).resolved u = none ∨
-    ∃ t, (run load es).docs u = some t ∧ (run load es).resolved u = some (load t) :=
-  (bgInv_run load es u).fresh
+    (run load true es).resolved u = none ∨
+    ∃ t, (run load true es).docs u = some t ∧ (run load true es).resolved u = some (load t) :=
+  (bgInv_run load es).fresh u
 
-/-- **Responses are a function of the document state.**  Consequently every response of a
-    handler that reads `Server.resolved` is one of two functions of the document's current
-    text — the handler with the tree of that text, or its fall-back without a tree —
-    whatever the history and the scheduling were. -/
+/-- The text a request in progress works with is the document's text, in every state until the
+    answer (no notification is handled while a request is being answered). -/
+theorem request_text_is_current (load : Text → Res) (es : List (Ev Text)) (r : Req Text Res)
+    (hr : (run load true es).req = some r) : (run load true es).docs r.uri = some r.doc :=
+  ((bgInv_run load es).req r hr).1
+
+/-- Every answer ever given was computed with the include tree of the text it was computed
+    from — never without a tree, never with the tree of another text. -/
+theorem every_answer_uses_tree_of_its_text (load : Text → Res) (es : List (Ev Text))
+    (a : Answer Text Res) (ha : a ∈ (run load true es).answers) : a.tree = some (load a.doc) :=
+  (bgInv_run load es).answers a ha
+
+/-- **Responses are a function of the state at the moment the request was taken** — in full,
+    no guard.  For every trace `es` (any number of documents, changes, closes, earlier requests,
+    background tasks in any interleaving, diagnostics switched off and on) after which the
+    handler thread is free and document `u` is open with text `t`, and for every continuation
+    `mid` (the background tasks and configuration changes that run while the request is being
+    answered, and whatever follows): the answer to the request taken at that moment — the
+    first answer after those given before — is the handler applied to `t` and the include
+    tree of `t`, i.e. `specRespond` in the state in which the request was taken. -/
 theorem response_is_function_of_state (load : Text → Res) (h : Text → Option Res → Resp)
-    (es : List (Ev Text)) (u : Nat) :
-    respond h (run load es) u = specRespond load h (run load es) u ∨
-    respond h (run load es) u = bareRespond h (run load es) u := by
-  unfold respond specRespond bareRespond
-  rcases resolved_never_stale load es u with hn | ⟨t, hd, hr⟩
-  · right; rw [hn]
-  · left; rw [hd, hr]; rfl
+    (es mid : List (Ev Text)) (u : Nat) (t : Text) (a : Answer Text Res)
+    (idle : (run load true es).req = none) (hd : (run load true es).docs u = some t)
+    (ha : (run load true (es ++ .req u :: mid)).answers[(run load true es).answers.length]? = some a) :
+    a.uri = u ∧ some (a.response h) = specRespond load h (run load true es) u := by
+  have h0 : Tracks (step load true (run load true es) (.req u)) u t (run load true es).answers.length := by
+    simp only [step, idle, hd]
+    exact Or.inl ⟨_, rfl, rfl, rfl, rfl⟩
+  have h1 := tracks_foldl load true mid _ u t _ h0
+  have e : run load true (es ++ .req u :: mid)
+      = mid.foldl (step load true) (step load true (run load true es) (.req u)) := by
+    rw [run_append]; rfl
+  rw [← e] at h1
+  rcases h1 with ⟨r, _, _, _, hn⟩ | ⟨a', ha', hu', hd'⟩
+  · rw [List.getElem?_eq_none (by omega)] at ha; cases ha
+  · rw [ha] at ha'; cases ha'
+    have := every_answer_uses_tree_of_its_text load (es ++ .req u :: mid) a (List.mem_of_getElem? ha)
+    exact ⟨hu', by simp [Answer.response, specRespond, hd, this, hd']⟩
 
-/-- ... and it is the first of the two — the response computed from the document state at the
-    moment of the request — as soon as the task of the current content has stored its tree. -/
-theorem response_is_function_of_state_partial (load : Text → Res) (h : Text → Option Res → Resp)
-    (es : List (Ev Text)) (u : Nat) (hs : settled (run load es) u = true) :
-    respond h (run load es) u = specRespond load h (run load es) u := by
-  unfold respond specRespond
-  cases hd : (run load es).docs u with
-  | none => rfl
-  | some t => simp [(bgInv_run load es u).stored t hd hs]
-
-/-- Non-vacuity: two documents, overlapping changes, tasks finishing out of order — settled. -/
-example : settled (run (fun t : Nat => t + 100)
-    [.change 0 1, .change 1 5, .change 0 2, .finish 0 1, .finish 1 0, .finish 0 0]) 0 = true ∧
-    (run (fun t : Nat => t + 100)
-    [.change 0 1, .change 1 5, .change 0 2, .finish 0 1, .finish 1 0, .finish 0 0]).resolved 0
-      = some 102 := by
+/-- ... and the request is answered: five accesses of the handler thread after it was taken, at
+    the latest, whatever the background does in between (here: a task of the document reads
+    the settings, loads and stores, another document changes... the hypotheses of the theorem
+    are met by a trace in which every kind of event occurs).  Non-vacuity. -/
+example :
+    let load := fun t : Nat => t + 100
+    let es : List (Ev Nat) := [.change 0 1, .change 1 5, .start 1 0, .config false, .change 0 2, .start 0 1]
+    let mid : List (Ev Nat) := [.adv, .start 0 0, .adv, .config true, .finish 1 0, .adv, .change 0 9, .adv,
+      .finish 0 0, .adv, .change 0 3]
+    (run load true es).req = none ∧ (run load true es).docs 0 = some 2 ∧
+    (run load true es).resolved 0 = none ∧ (run load true es).pending 0 = [⟨1, 1, false⟩] ∧
+    (run load true (es ++ .req 0 :: mid)).answers = [⟨0, 2, some 102⟩] ∧
+    (run load true (es ++ .req 0 :: mid)).docs 0 = some 3 := by
   decide
 
-/-- Known finding `resolved-pending`: a request handled before the task of the current content
-    has stored its tree is answered by the fall-back, which differs from the response computed
-    from the document state whenever the tree matters (a document with includes). -/
-theorem resolved_pending_counterexample :
+/-- The repaired window, diagnostics on: a request taken right after a change, before the
+    task of that change has run, is answered with the tree of the new text, and the tree is
+    kept; the task of the OLDER text that finishes afterwards does not replace it. -/
+example :
     let load := fun t : Nat => t + 100
-    let h := fun (t : Nat) (r : Option Nat) => (t, r)
-    let es : List (Ev Nat) := [.change 0 1, .finish 0 0, .change 0 2]
-    respond h (run load es) 0 = some (2, none) ∧
-    specRespond load h (run load es) 0 = some (2, some 102) := by
+    let es : List (Ev Nat) := [.change 0 1, .start 0 0, .change 0 2, .req 0, .adv, .adv, .adv, .adv, .adv, .finish 0 0]
+    (run load true es).answers = [⟨0, 2, some 102⟩] ∧ (run load true es).resolved 0 = some 102 := by
   decide
 
-/-- ... and with diagnostics switched off the task ends without loading, so the fall-back
-    stays for good. -/
-theorem resolved_pending_after_skip_counterexample :
+/-- The code before repo_patches/fix-resolved-pending.diff (`fixed := false`): a request handled
+    before the task of the current content has stored its tree was answered by the fall-back,
+    without the included files; the same trace on the repaired code (which needs four more
+    accesses) answers with the tree of the current text. -/
+theorem pinned_resolved_pending_counterexample :
     let load := fun t : Nat => t + 100
     let h := fun (t : Nat) (r : Option Nat) => (t, r)
-    let es : List (Ev Nat) := [.change 0 1, .finish 0 0, .change 0 2, .skip 0 0]
-    (run load es).pending 0 = [] ∧
-    respond h (run load es) 0 = some (2, none) ∧
-    specRespond load h (run load es) 0 = some (2, some 102) := by
+    let es : List (Ev Nat) := [.change 0 1, .start 0 0, .finish 0 0, .change 0 2]
+    (run load false (es ++ [.req 0, .adv])).answers.map (·.response h) = [(2, none)] ∧
+    specRespond load h (run load false es) 0 = some (2, some 102) ∧
+    (run load true (es ++ [.req 0, .adv, .adv, .adv, .adv, .adv])).answers.map (·.response h) = [(2, some 102)] := by
+  decide
+
+/-- ... and with diagnostics switched off the task ended without loading, so the fall-back
+    stayed for good; the repaired code loads in the handler, and keeps the tree. -/
+theorem pinned_resolved_pending_after_skip_counterexample :
+    let load := fun t : Nat => t + 100
+    let h := fun (t : Nat) (r : Option Nat) => (t, r)
+    let es : List (Ev Nat) := [.change 0 1, .start 0 0, .finish 0 0, .config false, .change 0 2, .start 0 0]
+    (run load false es).pending 0 = [] ∧
+    (run load false (es ++ [.req 0, .adv])).answers.map (·.response h) = [(2, none)] ∧
+    specRespond load h (run load false es) 0 = some (2, some 102) ∧
+    (run load true (es ++ [.req 0, .adv, .adv, .adv, .adv, .adv])).answers.map (·.response h) = [(2, some 102)] ∧
+    (run load true (es ++ [.req 0, .adv, .adv, .adv, .adv, .adv])).resolved 0 = some 102 := by
   decide
 
 end bg
